@@ -472,6 +472,13 @@ func (e *env) act(kind string, ord int) {
 }
 
 func (e *env) noteRequest(kind string, ord int, err error) {
+	if err == nil && (kind == "remove" || kind == "delete") {
+		// C11: remove and delete are refused while a space is plotting or mining
+		e.h.Res.OracleEvals++
+		if f, known := e.prevField[ord]; known && e.prevUsing[ord] && (f == engine.Plotting || f == engine.Mining) {
+			e.h.Fail("C11:"+kind+"-accepted-on-busy-space", fmt.Sprintf("%s of space %d returned without error although the space was %s", kind, ord, stName[f]))
+		}
+	}
 	if err == nil {
 		switch kind {
 		case "mine":
@@ -902,6 +909,9 @@ func main() {
 		}
 	}
 	if *focus == "C13" && !e.stuck {
+		staleRequestAfterReconfigure(e)
+	}
+	if *focus == "C13" && !e.stuck {
 		overflow(e)
 		realPlotDB(e)
 		storm(e)
@@ -1201,6 +1211,48 @@ func storm(e *env) {
 // requestDuringDelete (C11): while a delete request is erasing a space's files, a mine or plot request for the same
 // space must not be accepted (delete is refused for a mining space; a space must not become mining once its files are
 // on their way out).  The scripted backend parks inside Delete().
+// staleRequestAfterReconfigure (C13): a request made while the keeper is stopped waits in the plotter's channel; a new
+// configuration then leaves that space out; the keeper is started.  Whatever the plotter does with the stale request,
+// queries and requests still return and the keeper stops.
+func staleRequestAfterReconfigure(e *env) {
+	h := e.h
+	for _, kind := range []engine.ActionType{engine.Plot, engine.Mine} {
+		e.newKeeper(2)
+		curGates = nil
+		e.w.auto = true
+		if err := e.sk.ActOnWorkSpace(e.sidOf[1], kind); err != nil {
+			continue // refused while stopped: nothing to wait in the channel
+		}
+		if _, err := e.sk.ConfigureByBitLength(map[int]int{24: 1}, false, false); err != nil {
+			h.FailWith("C13:reconfigure-scenario", "ConfigureByBitLength(24:1) on two indexed spaces: "+err.Error(), nil)
+			return
+		}
+		if err := e.sk.Start(); err != nil {
+			h.FailWith("C13:reconfigure-scenario", err.Error(), nil)
+			return
+		}
+		time.Sleep(50 * time.Millisecond) // the plotter takes the stale request
+		replay := []string{kind.String() + " 1 (keeper stopped); configure 24:1 (space 1 left out); keeper start; queries; " + kind.String() + " 0; keeper stop"}
+		h.Res.OracleEvals++
+		if !guard(5*time.Second, func() { e.sk.WorkSpaceIDs(engine.SFAll); e.sk.WorkSpaceInfos(engine.SFAll) }) {
+			h.FailWith("C13:request-never-returns", "state queries do not return after the plotter met a request for a space that a later configuration left out", replay)
+			e.stuck = true
+			return
+		}
+		if !guard(5*time.Second, func() { e.sk.ActOnWorkSpace(e.sidOf[0], kind) }) {
+			h.FailWith("C13:request-never-returns", "a request does not return after the plotter met a request for a space that a later configuration left out", replay)
+			e.stuck = true
+			return
+		}
+		if !guard(10*time.Second, func() { e.sk.Stop() }) {
+			h.FailWith("C13:stop-never-returns", "Stop() does not return after the plotter met a request for a space that a later configuration left out", replay)
+			e.stuck = true
+			return
+		}
+	}
+	curGates = nil
+}
+
 // stopAtPlotEntry (C09): a stop that lands while the backend is still starting the plot.  The space is already reported as
 // plotting; whatever the interleaving, a stop that returned without error sticks: the plot does not run on to ready.
 func stopAtPlotEntry(e *env) {
